@@ -429,6 +429,10 @@ func runCase(m *mon.M, c *Case) {
 				m.Class("tcp-400")
 				continue
 			}
+			if string(rq.Target) == "*" {
+				m.Class("tcp-asterisk-form-answered-by-net/http-itself") // it never reaches a handler
+				continue
+			}
 		} else {
 			var perr error
 			var pv interface{}
@@ -460,8 +464,10 @@ func runCase(m *mon.M, c *Case) {
 		}
 		fits := map[string][]fitT{}
 		anyFit := false
+		// an asterisk-form target ("OPTIONS *") names no path at all: no template fits it
+		rooted := strings.HasPrefix(req.URL.EscapedPath(), "/")
 		for _, rt := range refs {
-			if as, ok := rt.fit(segs); ok {
+			if as, ok := rt.fit(segs); ok && rooted {
 				mm := strings.ToUpper(rt.op.Method)
 				fits[mm] = append(fits[mm], fitT{rt, as})
 				anyFit = true
@@ -951,6 +957,12 @@ func genRequests(r *rand.Rand, d *gen.Desc, n int) []Req {
 		}
 		if r.Intn(20) == 0 {
 			meth = extensionMethods[r.Intn(len(extensionMethods))] // no description can declare these
+		}
+		switch k := r.Intn(200); {
+		case k < 5:
+			t = "http://example.com" + t // absolute-form target (what a proxy receives)
+		case k == 5:
+			meth, t = "OPTIONS", "*" // asterisk-form
 		}
 		out = append(out, Req{Method: randCase(r, meth), Target: mon.Q(t)})
 	}
